@@ -707,3 +707,69 @@ fire('eq-left-method', ['C09'], ['C09.M4e'],
         yield False""",
          """    for l in get_value(arg1).unify(arg2):
         yield False"""))
+
+# ---------------------------------------------------------------------------------------------
+# round 7: constructors leave their arguments, asserts without effects, main() compiles every source
+
+fire('makelist-reverses-argument', ['C16'], ['C16.A15'],
+     (E, """        r = functools.reduce(lambda x, y: self.listpair(y, x), reversed(l), self.ATOM_NIL)
+        return r""",
+         """        l.reverse()
+        r = self.ATOM_NIL
+        for item in l:
+            r = self.listpair(item, r)
+        return r"""))
+
+silent('makelist-reverses-copy', ['C16', 'C01'],
+       (E, """        r = functools.reduce(lambda x, y: self.listpair(y, x), reversed(l), self.ATOM_NIL)
+        return r""",
+           """        items = list(l)
+        items.reverse()
+        r = self.ATOM_NIL
+        for item in items:
+            r = self.listpair(item, r)
+        return r"""))
+
+fire('assert-pops-scope', ['C18'], ['C18.N8'],
+     (G, """        self.pop_bound_vars()
+        self.pop_bound_vars()
+        self.pop_bound_vars()""",
+         """        assert self.pop_bound_vars() is None
+        self.pop_bound_vars()
+        self.pop_bound_vars()"""))
+
+silent('assert-inspects-scope', ['C18', 'C01'],
+       (G, """        self.pop_bound_vars()
+        self.pop_bound_vars()
+        self.pop_bound_vars()""",
+           """        assert len(self.bound_vars) >= 3 and self.filter_free_variables([]) == []
+        self.pop_bound_vars()
+        self.pop_bound_vars()
+        self.pop_bound_vars()"""))
+
+fire('main-skips-when-output-exists', ['C19'], ['C19.B8'],
+     (C, """    _set_debug_options(ctx)
+
+    with _open_output_file(outfile) as outf:""",
+         """    _set_debug_options(ctx)
+
+    import os
+    if outfile != '-' and os.path.exists(outfile) and os.path.getsize(outfile) > 0:
+        return
+    with _open_output_file(outfile) as outf:"""))
+
+silent('main-returns-without-sources', ['C19', 'C10'],
+       (C, """    _set_debug_options(ctx)
+
+    with _open_output_file(outfile) as outf:""",
+           """    _set_debug_options(ctx)
+
+    if not source:
+        return
+    with _open_output_file(outfile) as outf:"""))
+
+fire('main-suppresses-oserror', ['C19'], ['C19.B8'],
+     (C, """            with _open_input_file(s) as inf:
+                try:""",
+         """            with contextlib.suppress(OSError), _open_input_file(s) as inf:
+                try:"""))
